@@ -1903,3 +1903,111 @@ fn archetype_rejections() {
     ar_rejected("Archs::touches_self", "does not take `&mut self`");
     ar_rejected("Archs::bad_pattern", "loop pattern (only `(k, v)` over this container)");
 }
+
+// ------------------------------------------------------------------------------------------------ handlers-shaped code
+
+const HD: &str = r#"
+pub struct HD { infos: SlotMap<Info>, by_global: Vec<HList>, order: BTreeMap<u64, Ptr> }
+impl HD {
+    pub(crate) fn remove(&mut self, id: HId) -> Option<Info> {
+        let info = self.infos.remove(id.0)?;
+        if let EventId::Global(event_id) = info.received() {
+            let list = &mut self.by_global[event_id.index().0 as usize];
+            list.remove(info.ptr());
+        }
+        self.order.remove(&info.order());
+        debug_assert_eq!(self.infos.len(), self.order.len() as u32);
+        Some(info)
+    }
+    pub(crate) fn register_event(&mut self, event_idx: GIdx) {
+        let idx = event_idx.0 as usize;
+        if idx >= self.by_global.len() {
+            self.by_global.resize_with(idx + 1, HList::default);
+        }
+    }
+    pub fn get_by_index(&self, idx: HIdx) -> Option<&Info> { self.infos.get_by_index(idx.0).map(|(_, v)| v) }
+    fn effect_in_debug_assert(&mut self, id: HId) -> Option<Info> {
+        let info = self.infos.remove(id.0)?;
+        debug_assert!(self.order.remove(&info.order()).is_some());
+        Some(info)
+    }
+    fn bind_after_other_effect(&mut self, id: HId, o: Option<u32>) -> Option<u32> {
+        let x = self.order.remove(&3).is_some() && o?.index() == 0;
+        None
+    }
+    fn dot_zero_unknown(&self, p: Ptr) -> u32 { p.0 }
+    fn resize_with_closure(&mut self) { self.by_global.resize_with(3, || HList::new()); }
+}
+"#;
+
+fn hd_opts(fns: &[&str]) -> Options {
+    let p = |a: &str, b: &str| (a.to_string(), b.to_string());
+    Options {
+        impl_type: "HD".into(),
+        fns: fns.iter().map(|s| s.to_string()).collect(),
+        type_map: vec![p("HD", "HD"), p("SlotMap", "SlotMap Info"), p("Info", "Info"), p("HList", "HList"), p("BTreeMap", "List (Nat × Key)"), p("Ptr", "Key"), p("HId", "Key"), p("HIdx", "Nat"), p("GIdx", "Nat"), p("GId", "Nat"), p("EventId", "Bool × Nat"), p("Key", "Key")],
+        structs: vec!["HD".into()],
+        enums: vec![p("EventId", "Global(GId)|Targeted(GId)")],
+        variant_map: vec![p("EventId::Global", "(false, $1)"), p("EventId::Targeted", "(true, $1)")],
+        prims: vec![
+            p("::HId(Key) -> HId", "_"), p("::HIdx(u32) -> HIdx", "_"), p("::GIdx(u32) -> GIdx", "_"), p("GId::index(self) -> GIdx", "_"),
+            p("SlotMap::remove(&mut self, Key) -> Option<Info>", "SlotMap.remove'"), p("SlotMap::get_by_index(&self, u32) -> Option<(Key, &Info)>", "SlotMap.getByIndex"),
+            p("Info::received(&self) -> EventId", "Info.received"), p("Info::ptr(&self) -> Ptr", "Info.key"), p("Info::order(&self) -> u64", "Info.order"),
+            p("HList::remove(&mut self, Ptr) -> bool", "HList.remove"), p("BTreeMap::remove(&mut self, &u64) -> Option<Ptr>", "assocRemove"),
+        ],
+        source_label: "hd.rs".into(),
+        ..Default::default()
+    }
+}
+
+#[test]
+fn question_mark_on_the_result_of_an_effect_index_borrow_and_newtype_projection() {
+    let out = translate(HD, &hd_opts(&["remove", "register_event", "get_by_index"])).unwrap_or_else(|e| panic!("{e}"));
+    assert_eq!(
+        body_of(&out, "remove"),
+        "def remove (self : HD) (id : Key) : HD × (Option Info) :=
+  let (r1, q1) := SlotMap.remove' self.infos id
+  let self := { self with infos := r1 }
+  match q1 with
+  | none => (self, none)
+  | some info =>
+    let self :=
+      (match Info.received info with
+      | (false, event_id) =>
+        let at1 := event_id
+        let list := optUnwrap (vecGet self.by_global at1)
+        let (r2, q3) := HList.remove list (Info.key info)
+        let list := r2
+        let self := { self with by_global := vecSet self.by_global at1 list }
+        self
+      | _ =>
+        self)
+    let (r3, q4) := assocRemove self.order (Info.order info)
+    let self := { self with order := r3 }
+    (self, some info)"
+    );
+    assert_eq!(
+        body_of(&out, "register_event"),
+        "def register_event (self : HD) (event_idx : Nat) : HD :=
+  let idx := event_idx
+  if idx ≥ (vecLen self.by_global) then
+    { self with by_global := vecResize self.by_global (idx + 1) default }
+  else self"
+    );
+    assert_eq!(body_of(&out, "get_by_index"), "def get_by_index (self : HD) (idx : Nat) : Option Info :=\n  Option.map (fun (_, v) => v) (SlotMap.getByIndex self.infos idx)");
+    assert!(out.contains("`::HId(Key) -> HId` is taken as the identity (so is `.0`)"), "{out}");
+    assert!(out.contains("`&mut self.by_global[event_id.index().0 as usize]` panics in Rust when the index is ≥ len"), "{out}");
+    assert!(out.contains("`debug_assert_eq!(self.infos.len(), self.order.len() as u32)` (debug builds only)"), "{out}");
+}
+
+#[test]
+fn handlers_rejections() {
+    let rej = |f: &str, needle: &str| match translate(HD, &hd_opts(&[f])) {
+        Ok(o) => panic!("{f} was translated:\n{o}"),
+        Err(e) => assert!(e.0.contains(needle), "{f}: message `{}` does not mention `{needle}`", e.0),
+    };
+    rej("effect_in_debug_assert", "side effect inside an assertion (call of `remove`)");
+    rej("bind_after_other_effect", "inside a conditionally evaluated operand");
+    rej("dot_zero_unknown", "field `.0` (only of a tuple struct whose constructor is given by --prim as the identity)");
+    rej("resize_with_closure", "Vec method as a statement");
+}
